@@ -180,47 +180,9 @@ fn contains_n(maxn: usize, pool: u8, maxlen: u8) {
     core::mem::forget(q);
 }
 
-// quick bound: <= 2 types, <= 2 segments, pool {"a","b","ab"}
-#[kani::proof]
-#[kani::unwind(5)]
-fn contains_type_path_n2() {
-    contains_n(2, 3, 2);
-}
-
-// thorough bound: <= 3 types, <= 2 segments, pool {"a","b","ab"}  (~13 min)
-#[kani::proof]
-#[kani::unwind(5)]
-fn contains_type_path_n3() {
-    contains_n(3, 3, 2);
-}
-
-// experiment: concrete registry catalogue, symbolic prefix length and symbolic query
-#[kani::proof]
-#[kani::unwind(5)]
-fn contains_type_path_catalogue() {
-    let n: usize = kani::any();
-    kani::assume(n <= 3);
-    let cat: [[u8; 3]; 3] = [[2, 0, 1], [1, 0, 0], [1, 2, 0]]; // a::b, a, ab
-    let mut types = Vec::new();
-    if n >= 1 { types.push(PortableType { id: 0, ty: prim_ty(vec!["a".to_string(), "b".to_string()]) }); }
-    if n >= 2 { types.push(PortableType { id: 1, ty: prim_ty(vec!["a".to_string()]) }); }
-    if n >= 3 { types.push(PortableType { id: 2, ty: prim_ty(vec!["ab".to_string()]) }); }
-    let reg = PortableRegistry { types };
-    let (q, qc) = sym_path(3, 2);
-    let got = registry_contains_type_path(&reg, &q);
-    let mut expect = false;
-    let mut j = 0;
-    while j < n {
-        if cat[j] == qc { expect = true; }
-        j += 1;
-    }
-    kani::cover!(got, "member reachable");
-    kani::cover!(!got && n > 0, "non-member reachable");
-    assert!(got == expect, "registry_contains_type_path <=> some registry type has exactly this path");
-    core::mem::forget(reg);
-    core::mem::forget(q);
-}
-
+// BOUNDED cross-check of the std contracts assumed by the Verus unit U-CONTAINS, on the UNMODIFIED function:
+// <= 1 registry type, paths of <= 1 segment over the pool {"a","b"}.  (~11 min: String/Vec<String> equality is
+// expensive under CBMC; larger bounds of the same harness ran 12 min (n<=2, n<=3) -- thorough tier only.)
 #[kani::proof]
 #[kani::unwind(5)]
 fn contains_type_path_n1() {
